@@ -3,14 +3,24 @@
 # Confirms in a scratch worktree: patch applies, demo passes clean / fails mutated, full test suite result. Writes <dir>/confirm.json
 ID=$1; K=$2; D=$3
 WT=/tmp/seedruns/wt_${ID}_${K}
+# the lock keeps seed_detect.sh (which temporarily mutates /repo) from overlapping with the snapshot taken here
+exec 9>/tmp/seed_repo.lock; flock 9
 rm -rf $WT; git -C /repo worktree prune
 git -C /repo worktree add -q --detach $WT HEAD || exit 2
-rsync -a --include='*/' --include='*.so' --exclude='*' /repo/TidalPy/ $WT/TidalPy/
+rsync -a --include='*/' --include='*.so' --include='*.c' --exclude='*' /repo/TidalPy/ $WT/TidalPy/
+flock -u 9
 cd $WT; HEAD0=$(git rev-parse --short HEAD)
 PYTHONPATH=$WT /venv/bin/python $D/demo.py > $D/demo_clean.log 2>&1; CLEAN=$?
 git apply $D/patch.diff || { echo "patch does not apply"; exit 3; }
+if [ -f $D/c_patch.diff ]; then
+  # Cython is not available: the seeded change carries the hand-mirrored change of the generated .c; rebuild the module(s) in the worktree
+  patch -p1 -d $WT < $D/c_patch.diff || { echo "c patch does not apply"; exit 3; }
+  for f in $(grep '^+++ ' $D/c_patch.diff | awk '{print $2}' | sed 's#^[ab]/##'); do
+    (cd $WT/$(dirname $f) && gcc -shared -fPIC -O3 -fopenmp -w -I/root/.pyenv/versions/3.12.1/include/python3.12 -I$(/venv/bin/python -c "import numpy; print(numpy.get_include())") -I$WT -I. $(/venv/bin/python -c "import CyRK, os; d=os.path.dirname(CyRK.__file__); print(' '.join('-I'+os.path.join(d,x) for x in ('', 'cy', 'array', 'utils')))") $(basename $f) -o $(basename ${f%.c}).cpython-312-x86_64-linux-gnu.so) || { echo "rebuild failed"; exit 3; }
+  done
+fi
 PYTHONPATH=$WT /venv/bin/python $D/demo.py > $D/demo_mut.log 2>&1; MUT=$?
-PYTHONPATH=$WT timeout 3000 /venv/bin/python -m pytest -q -p no:cacheprovider --timeout=900 Tests > $D/tests_mut.log 2>&1
+NUMBA_NUM_THREADS=4 OMP_NUM_THREADS=4 PYTHONPATH=$WT timeout 5000 /venv/bin/python -m pytest -q -p no:cacheprovider --timeout=900 Tests > $D/tests_mut.log 2>&1
 TAIL=$(tail -1 $D/tests_mut.log)
 FAILED=$(grep -c "^FAILED" $D/tests_mut.log)
 FAILNAMES=$(grep "^FAILED" $D/tests_mut.log | tr '\n' ';')
